@@ -32,7 +32,7 @@ ASSUMPTIONS = [
 ]
 
 SCHEMES = ["EF", "RK2", "RK4"]
-FIELDS = ["const", "shear", "rot", "saddle", "conv", "tlin", "rotramp", "xt"]
+FIELDS = ["const", "shear", "rot", "saddle", "conv", "tlin", "rotramp", "xt", "ramp"]
 METRICS = [dict(dx=1.0), dict(dx=100.0), dict(dx=1600.0), dict(dx=800.0, dy=500.0), dict(dx=400.0, metric="cellwise"), dict(dx=200.0, tall=True)]
 XC, YC = 20.0, 15.0
 S0 = world.tosec("2020-01-01T00:00:00")
@@ -59,7 +59,12 @@ def cases(tier, seed):
     out = []
     for sch, f, mi, disp, dt in itertools.product(SCHEMES, FIELDS, range(len(METRICS)), b["disp"], b["dts"]):
         out.append(dict(mode="trace", scheme=sch, field=f, metric=mi, disp=disp, dt=dt, steps=max(b["steps"])))
-    for sch, f in itertools.product(SCHEMES, ["shear", "rot", "saddle", "conv", "tlin", "rotramp", "xt"]):
+    for sch, f, mi in itertools.product(SCHEMES, ["shear", "rot", "rotramp", "ramp"], [1, 3, 4]):
+        out.append(dict(mode="inactive", scheme=sch, field=f, metric=mi, disp=0.3, dt=600, steps=3))
+    for sch, f, sp in itertools.product(SCHEMES, ["shear", "rot", "saddle", "conv"], [0.5, 2.0 / 3.0, 0.75, 1.0]):
+        if sch == "RK2" or sp == 1.0:
+            out.append(dict(mode="helper", scheme=sch, field=f, s=sp))
+    for sch, f in itertools.product(SCHEMES, ["shear", "rot", "saddle", "conv", "tlin", "rotramp", "xt", "ramp"]):
         out.append(dict(mode="order", scheme=sch, field=f, via="tracker"))
         out.append(dict(mode="order", scheme=sch, field=f, via="analytical"))
     for sch, f, sub in itertools.product(SCHEMES, ["tlin", "shear", "rot", "saddle"], [None, [2, 12, 1, 10]]):
@@ -83,6 +88,8 @@ def params(field, disp, dt, tall=False):
         p.update(a=r / 8, b=0.125 / dt)
     elif field == "xt":
         p.update(a=r / (16 * dt), b=0.25 * r)
+    elif field == "ramp":
+        p.update(a=r / (2 * dt), b=-0.25 * r / dt)
     return p
 
 
@@ -105,6 +112,8 @@ def flow_map(field, p, x0, y0, T):
         return x0 + a * T + b * T * T / 2, y0 + c * T + b * T * T
     if field == "xt":
         return xc + (x0 - xc) * math.exp(a * T * T / 2), y0 + b * T
+    if field == "ramp":
+        return x0 + a * T * T / 2, y0 + b * T * T / 2
     raise util.HarnessError(field)
 
 
@@ -119,7 +128,7 @@ def build(scheme, field, p, metric, dt, starts):
     g = dict(imax=40, jmax=30)
     g.update(metric)
     if g.pop("tall", False):  # more rows than columns; the start lattice lies north of y = xmax
-        g.update(imax=24, jmax=60)
+        g.update(imax=34, jmax=70)
     mods["grid"] = plugin("agrid").Grid(modules=mods, **g)
     L = metric["dx"]
     mods["forcing"] = plugin("aforce").Forcing(mods, field=field, params=dict(p, L=L))
@@ -202,6 +211,102 @@ def run_trace(case):
     return util.result(evals=n, nontrivial=n if field != "const" else 0, outcomes=[f"ok:{scheme}"], states=n, transitions=n * dict(EF=1, RK2=2, RK4=4)[scheme], sample=case)
 
 
+def ref_tableau_step(scheme, s, fname, p, x, y, t, dt, dx, dy):
+    """One step of the scheme for one particle with the exact analytic field and the metric frozen at the start cell."""
+    f = plugin("aforce").field
+
+    def rate(xx, yy, tt):
+        u, v = f(fname, p, np.array([xx]), np.array([yy]), tt)
+        return float(u[0]) / dx, float(v[0]) / dy
+
+    k1 = rate(x, y, t)
+    if scheme == "EF":
+        return x + dt * k1[0], y + dt * k1[1]
+    if scheme == "RK2":
+        k2 = rate(x + s * dt * k1[0], y + s * dt * k1[1], t + s * dt)
+        m = 1 / (2 * s)
+        return x + dt * ((1 - m) * k1[0] + m * k2[0]), y + dt * ((1 - m) * k1[1] + m * k2[1])
+    k2 = rate(x + 0.5 * dt * k1[0], y + 0.5 * dt * k1[1], t + 0.5 * dt)
+    k3 = rate(x + 0.5 * dt * k2[0], y + 0.5 * dt * k2[1], t + 0.5 * dt)
+    k4 = rate(x + dt * k3[0], y + dt * k3[1], t + dt)
+    return x + dt * (k1[0] + 2 * k2[0] + 2 * k3[0] + k4[0]) / 6, y + dt * (k1[1] + 2 * k2[1] + 2 * k3[1] + k4[1]) / 6
+
+
+def run_inactive(case):
+    """Some particles are inactive (also the first one): every ACTIVE particle must still move by its own tableau step,
+    computed by an independent per-particle reference stepper; inactive ones stay."""
+    scheme, field, dt = case["scheme"], case["field"], case["dt"]
+    metric = METRICS[case["metric"]]
+    p = params(field, case["disp"], dt)
+    mods = build(scheme, field, p, metric, dt, STARTS)
+    st, tk, fo, tr, g = mods["state"], mods["time"], mods["forcing"], mods["tracker"], mods["grid"]
+    inactive = [0, 3, 11]
+    n = 0
+    for k in range(case["steps"]):
+        tk.update()
+        fo.update()
+        if k == 1:
+            for i in inactive:
+                st["active"][i] = False
+        X0, Y0 = st.X.copy(), st.Y.copy()
+        dx, dy = g.metric(X0, Y0)
+        dx, dy = np.broadcast_to(dx, X0.shape), np.broadcast_to(dy, X0.shape)
+        fo.queries.clear()
+        try:
+            tr.update()
+        except Exception as e:
+            return util.result(evals=n + 1, nontrivial=1, viol=[util.viol("exception", f"{case}: tracker.update raised {e!r}", case)])
+        s = 0.5
+        if scheme == "RK2" and len(fo.queries) >= 2 and 0 < fo.queries[1][1] <= 1:
+            s = fo.queries[1][1]
+        for i in range(len(X0)):
+            n += 1
+            if k >= 1 and i in inactive:
+                ex, ey = X0[i], Y0[i]
+            else:
+                ex, ey = ref_tableau_step(scheme, s, field, dict(p, L=metric["dx"]), X0[i], Y0[i], k * dt, float(dt), float(dx[i]), float(dy[i]))
+            if abs(st.X[i] - ex) > 1e-10 or abs(st.Y[i] - ey) > 1e-10:
+                what = "inactive particle moved" if (k >= 1 and i in inactive) else "active particle displaced wrongly while other particles are inactive" if k >= 1 else "wrong displacement"
+                return util.result(evals=n, nontrivial=n, viol=[util.viol(f"inactive:{scheme}", f"{scheme} {field} metric={metric} step {k} particle {i}: at ({st.X[i]},{st.Y[i]}) expected ({ex},{ey}) [{what}]", case)])
+    return util.result(evals=n, nontrivial=n, outcomes=[f"inactive-ok:{scheme}"], states=n, transitions=n, sample=case)
+
+
+def run_helper(case):
+    """ladim.analytical.get_velocity1/2/4 against the tableau formula, with a recording sample function."""
+    from ladim import analytical
+    from ladim.state import State
+
+    scheme, field, s = case["scheme"], case["field"], case["s"]
+    fmod = plugin("aforce")
+    dt = 600.0
+    p = dict(params(field, 0.4, dt), L=1.0)
+    st = State()
+    st.append(X=np.array([x for x, _ in STARTS]), Y=np.array([y for _, y in STARTS]), Z=0.0)
+    calls = []
+
+    def sample(x, y):
+        calls.append((np.array(x, copy=True), np.array(y, copy=True)))
+        return fmod.field(field, p, x, y, 0.0)
+
+    try:
+        if scheme == "EF":
+            U, V = analytical.get_velocity1(st, sample, dt)
+        elif scheme == "RK2":
+            U, V = analytical.get_velocity2(st, sample, dt) if s == 1.0 else analytical.get_velocity2(st, sample, dt, s)
+        else:
+            U, V = analytical.get_velocity4(st, sample, dt)
+    except Exception as e:
+        return util.result(viol=[util.viol("helper:exception", f"{case}: {e!r}", case)], nontrivial=1)
+    viols = []
+    for i, (x, y) in enumerate(STARTS):
+        ex, ey = ref_tableau_step(scheme, s, field, p, x, y, 0.0, dt, 1.0, 1.0)
+        gu, gv = (ex - x) / dt, (ey - y) / dt
+        if abs(U[i] - gu) > 1e-12 * max(1, abs(gu)) + 1e-15 or abs(V[i] - gv) > 1e-12 * max(1, abs(gv)) + 1e-15:
+            viols.append(util.viol(f"helper:{scheme}", f"get_velocity for {scheme} (s={s}) on {field} at {STARTS[i]}: ({U[i]},{V[i]}) expected the tableau velocity ({gu},{gv})", case))
+            break
+    return util.result(evals=len(STARTS), nontrivial=len(STARTS), viol=viols, outcomes=[f"helper:{scheme}:{s}"], states=len(STARTS), transitions=len(calls), sample=case)
+
+
 def integrate_tracker(scheme, field, p, n, T):
     dt = T / n
     dti = int(round(dt))
@@ -234,7 +339,7 @@ def integrate_analytical(scheme, field, p, n, T):
 
 def run_order(case):
     scheme, field = case["scheme"], case["field"]
-    if case["via"] == "analytical" and field in ("tlin", "rotramp", "xt"):
+    if case["via"] == "analytical" and field in ("tlin", "rotramp", "xt", "ramp"):
         return util.result(evals=0, nontrivial=0)  # steady fields only for the helpers
     T = 38400.0  # divisible by 8, 16, 32, 64 into whole seconds
     p = params(field, 0.6, T / 8)
@@ -331,4 +436,4 @@ def warmup():
 
 
 def run_case(case):
-    return dict(trace=run_trace, order=run_order, roms=run_roms)[case["mode"]](case)
+    return dict(trace=run_trace, order=run_order, roms=run_roms, inactive=run_inactive, helper=run_helper)[case["mode"]](case)
